@@ -539,6 +539,7 @@ func TestC14(t *testing.T) {
 		Level: "exploration",
 		Rule: "rapid draws a cursor kind out of 20 (raw bolt forward/reverse, OpenSeekableCursor, OpenCursor, IterateStringList, IterateStringListInDirection, OpenTypedCursor, GetRelatedEntitiesCursor, link IterateLinks, ref-counted IterateLinks, set-index OpenValueCursor / OpenKeyCursor, set-symbol runtime cursor, IterateIds, IterateValidIds of an extended store, empty cursors, NewFilteredCursor, TreeSet.ToCursor, NewUnionSetCursor, IteratorMatchingAllOf / AnyOf), a direction where the kind has one, a set of 0-8 byte strings over {'', a, a\\x00, ab, b, B, \\xff, \\xff\\xff, a\\xff, \\x05, \\x07x} (no empty element where elements are bbolt keys) and 0-10 Next / Seek(v) steps (v present, absent, empty, beyond the last). " +
 			"Oracle: a sorted-slice model with a position: the full enumeration equals the set once each in key order (descending for reverse), and after every step IsValid and Current (untagged bytes) equal the model; Next is only issued while valid. " +
+			"Also generated: elements longer than 64 bytes with long common prefixes, a second cursor of the same set symbol opened and drained on another row in mid-walk, the runtime symbol re-opened on other rows after every walk. " +
 			"Non-trivial: >= 2 elements with a seek to an absent value, or the set contains the empty string, or the set is empty. Distinct by hash of the case JSON.",
 		Assumptions: []string{"the set-symbol runtime cursor is sought with SeekToString (the form the engine uses); its raw Seek is not exercised"},
 		Gen:         genC14, Run: runC14,
